@@ -364,13 +364,19 @@ REFUSALS = [
     (None, "process_metadata", "loop-else-raise", "unknown metadata type"),
     (None, "build_CPPCodeValue", "guard-raise:spec.method_object is None", "function invoked like a method"),
     ("query_ast_visitor", "visit_Call", "guard-nonempty:call_node.keywords", "keyword arguments (they would be dropped)"),
+    ("cpp_sequence", "as_cpp", "first-raise", "a sequence used where a C++ value is needed (arithmetic, comparison, argument)"),
 ]
 
 
 def check_refusals(col, repo: Repo, m):
-    col.floor("C09.R5", 19)
+    col.floor("C09.R5", 20)
     for cls, fname, how, what in REFUSALS:
-        f = m.get(fname) if cls else repo.function(fname)
+        if cls == "query_ast_visitor":
+            f = m.get(fname)
+        elif cls:
+            f = repo.method(cls, fname)
+        else:
+            f = repo.function(fname)
         if f is None:
             raise AnalysisError(f"{fname} not found")
         body = [s for s in f.node.body if not (isinstance(s, ast.Expr) and isinstance(s.value, ast.Constant))]
